@@ -148,10 +148,14 @@ func (e *Engine) checkProperty(prop string, o runOpts) int {
 		if con == nil {
 			con = e.Contracts[k]
 		}
+		t0 := time.Now()
 		res := e.buildVCFix(k, con, o)
+		if os.Getenv("GVC_SLOW") != "" && time.Since(t0).Seconds() > 2 {
+			fmt.Printf("slow-build: %-50s %.1fs goals=%d auto=%d\n", k, time.Since(t0).Seconds(), len(res.Goals), res.AutoProved)
+		}
 		done[k] = res
 		for _, u := range res.UsedCon {
-			if c := e.Contracts[u]; c != nil && !c.Assumed {
+			if c := e.Contracts[u]; c != nil && !c.Assumed && !(c.NoFrame && len(c.Ensures) == 0) {
 				if _, ok := done[u]; !ok {
 					queue = append(queue, u)
 				}
